@@ -30,7 +30,9 @@ bool splinetable<Alloc>::searchcenters(const double* x, int* centers) const
 		
 		uint32_t min = order[i];
 		uint32_t max = nknots[i]-2;
+		PHOTOSPLINE_VERIF_SEARCH_DECL();
 		do {
+			PHOTOSPLINE_VERIF_SEARCH_STEP();
 			centers[i] = (max+min)/2;
 			
 			if (x[i] < knots[i][centers[i]])
@@ -57,6 +59,7 @@ template<typename Alloc>
 template<typename Float>
 double splinetable<Alloc>::ndsplineeval_core(const int* centers, int maxdegree __attribute__((unused)), detail::buffer2d<Float> localbasis) const
 {
+	PHOTOSPLINE_VERIF_CORE();
 	uint32_t n;
 	Float basis_tree[ndim+1];
 	unsigned decomposedposition[ndim];
@@ -106,6 +109,7 @@ template<typename Alloc>
 template<typename Float, unsigned int D>
 double splinetable<Alloc>::ndsplineeval_coreD(const int* centers, int maxdegree __attribute__((unused)), detail::buffer2d<Float> localbasis) const
 {
+	PHOTOSPLINE_VERIF_CORE();
 	uint32_t n;
 	Float basis_tree[D+1];
 	unsigned decomposedposition[D];
@@ -158,6 +162,7 @@ template<typename Alloc>
 template<typename Float, unsigned int D, unsigned int O>
 double splinetable<Alloc>::ndsplineeval_coreD_FixedOrder(const int* centers, int maxdegree __attribute__((unused)), detail::buffer2d<Float> localbasis) const
 {
+	PHOTOSPLINE_VERIF_CORE();
 	uint32_t n;
 	Float basis_tree[D+1];
 	unsigned decomposedposition[D];
@@ -254,6 +259,7 @@ template<typename Alloc>
 template<typename Float, unsigned int ... Orders>
 double splinetable<Alloc>::ndsplineeval_core_KnownOrder(const int* centers, int maxdegree __attribute__((unused)), detail::buffer2d<Float> localbasis) const
 {
+	PHOTOSPLINE_VERIF_CORE();
 	constexpr unsigned int D = sizeof...(Orders);
 	uint32_t n;
 	Float basis_tree[D+1];
